@@ -217,6 +217,8 @@ func run(c *fw.Ctx) {
 			c.Sample(map[string]any{"kind": "gen", "src": fw.Short(src, 1500)})
 		}
 	}
+	// 1b. bounded-exhaustive tiny programs
+	runTiny(c, st)
 	// 2. corpus
 	for i, f := range corpusFiles() {
 		if !c.Mine(i) {
@@ -277,6 +279,14 @@ func adversarial(quick bool) []Case {
 		}
 		add("longjump", 140000, 0)
 		add("longjump", 140000, 1)
+	}
+	for m := 0; m < 10; m++ {
+		for _, n := range []int{131066, 131068, 131069, 131070, 131071, 131072, 131073, 131075} {
+			if quick && n != 131070 && n != 131071 && n != 131072 && !(m == 6 && n == 131073) {
+				continue
+			}
+			add("jump-boundary", n, m)
+		}
 	}
 	add("longjump", 40000, 0)
 	add("longjump", 40000, 1)
@@ -407,6 +417,63 @@ func buildAdv(fam string, n, m int) string {
 		} else {
 			sb.WriteString("end\nreturn x")
 		}
+	case "jump-boundary":
+		// n one-instruction statements ("x = 1" on a local) as the body of a
+		// construct whose jump has to span them: at, just below and just above
+		// the largest distance an sBx field holds (131071)
+		fill := func(k int) {
+			for i := 0; i < k; i++ {
+				sb.WriteString("x = 1\n")
+			}
+		}
+		sb.WriteString("local x, c = 0, false\n")
+		switch m {
+		case 0:
+			sb.WriteString("for i = 1, 2 do\n")
+			fill(n)
+			sb.WriteString("end\n")
+		case 1:
+			sb.WriteString("for k in pairs({}) do\n")
+			fill(n)
+			sb.WriteString("end\n")
+		case 2:
+			sb.WriteString("while c do\n")
+			fill(n)
+			sb.WriteString("end\n")
+		case 3:
+			sb.WriteString("repeat\n")
+			fill(n)
+			sb.WriteString("until true\n")
+		case 4:
+			sb.WriteString("if c then\n")
+			fill(n)
+			sb.WriteString("end\n")
+		case 5:
+			sb.WriteString("if c then x = 2 else\n")
+			fill(n)
+			sb.WriteString("end\n")
+		case 6:
+			// a jump whose target is another jump: the end of an inner if/else that
+			// ends the then-part of an outer if/else with a long else-part
+			sb.WriteString("if c then\nif x then x = 3 else\n")
+			fill(100)
+			sb.WriteString("end\nelse\n")
+			fill(n - 100)
+			sb.WriteString("end\n")
+		case 7:
+			sb.WriteString("while true do\nif c then break end\n")
+			fill(n)
+			sb.WriteString("break end\n")
+		case 8:
+			sb.WriteString("do goto done end\n")
+			fill(n)
+			sb.WriteString("::done::\n")
+		default:
+			sb.WriteString("::top::\n")
+			fill(n)
+			sb.WriteString("if c then goto top end\n")
+		}
+		sb.WriteString("return x")
 	case "many-labels":
 		sb.WriteString("local x = 0\n")
 		for i := 0; i < n; i++ {
